@@ -24,6 +24,16 @@ pub fn quote(signer: u8, content: XorName, ts: SystemTime) -> PaymentQuote {
     q
 }
 
+/// A quote by `signer` that reports the given uptime and payment count, signed over exactly that.
+pub fn quote_reporting(signer: u8, content: XorName, ts: SystemTime, live_time: u64, payments: usize) -> PaymentQuote {
+    let kp = ed_keypair(signer);
+    let mut q = quote(signer, content, ts);
+    q.quoting_metrics.live_time = live_time;
+    q.quoting_metrics.received_payment_count = payments;
+    q.signature = kp.sign(&q.bytes_for_sig()).expect("sign quote");
+    q
+}
+
 pub fn proof(entries: Vec<(u8, PaymentQuote)>) -> ProofOfPayment {
     ProofOfPayment { peer_quotes: entries.into_iter().map(|(p, q)| (EncodedPeerId::from(peer_id(p)), q)).collect() }
 }
